@@ -10,7 +10,8 @@ open Finset BigOperators
 
 set_option linter.unusedSectionVars false
 
-namespace GT
+namespace GT.Rescale
+open GT
 
 section field
 variable {K : Type*} [Field K] {n : ℕ}
@@ -101,7 +102,7 @@ theorem quad_roots_only {a b c ρ t : K} (ha : a ≠ 0) (hρ : ρ * ρ = b * b -
   · left; field_simp; linear_combination h
   · right; field_simp; linear_combination h
 
-theorem IsSqrt.mul_sq {r : K → K} (hr : IsSqrt r) (c t : K) (ht : 0 ≤ t) :
+theorem isSqrt_mul_sq {r : K → K} (hr : IsSqrt r) (c t : K) (ht : 0 ≤ t) :
     r (c ^ 2 * t) = |c| * r t := by
   obtain ⟨h0, h1⟩ := hr (c ^ 2 * t) (by positivity)
   obtain ⟨g0, g1⟩ := hr t ht
@@ -139,7 +140,7 @@ theorem normalize_smul {r : K → K} (hr : IsSqrt r) (x : Fin (n + 1) → K) (c 
   have hpos : 0 < r |mink x x| := hr.pos (abs_pos.2 hx)
   have hc' : 0 < |c| := abs_pos.2 hc
   unfold normalize
-  rw [hm, hr.mul_sq c _ (abs_nonneg _), if_neg (mul_pos hc' hpos).ne', if_neg hpos.ne']
+  rw [hm, isSqrt_mul_sq hr c _ (abs_nonneg _), if_neg (mul_pos hc' hpos).ne', if_neg hpos.ne']
   funext i; field_simp
 
 theorem coshDist_smul_generic {r : K → K} (hr : IsSqrt r) (x y : Fin (n + 1) → K) (a b : K)
@@ -265,4 +266,4 @@ theorem param_inj {p q l₁ l₂ : K} (h1 : l₁ ≠ 0) (h2 : l₂ ≠ 0)
   · linear_combination h
 
 end ordered
-end GT
+end GT.Rescale
